@@ -48,7 +48,7 @@ Proof.
   - intros t name w trig _ _. unfold run_task_cmd. destruct w.
     + pose proof (acts_defer sp (fst t) name trig) as H. destruct (defer sp (fst t) name trig) as [[s1 tid] chk]. exact H.
     + reflexivity.
-  - intros t tid a b _ _. unfold run_existing_cmd. simpl. destruct (_ && _); reflexivity.
+  - intros t tid a b _ _. unfold run_existing_cmd. simpl. destruct (_ && _); [reflexivity|]. destruct (_ && _); reflexivity.
   - intros t x s1 _ _ H. simpl. apply acts_set_workflow_state in H. exact H.
   - intros t tid x. unfold complete_pre. destruct (_ && _); [reflexivity|].
     destruct (if is_completed _ then _ else _); [|reflexivity].
